@@ -77,16 +77,16 @@ def instances(tier, seed):
         if CHECKERS[c] == "nohook" and h:
             continue
         for o in range(len(ORDERS)):
-            g = "core" if (tier == "thorough" or rng.random() < 0.1) else "ext"
-            out.append((g, dict(kind="history", run1=[h, c, o], nruns=2)))
+            g = "core" if (tier == "thorough" or rng.random() < 0.05) else "ext"
+            out.append((g, dict(kind="history", run1=[h, c, o], nruns=2, env1=rng.choice([0, 0, 1, 2]))))
             if tier == "thorough" and rng.random() < 0.15:
                 # three runs: explored as far as the budget allows (about a million histories each)
-                out.append(("ext", dict(kind="history", run1=[h, c, o], nruns=3)))
+                out.append(("ext", dict(kind="history", run1=[h, c, o], nruns=3, env1=0)))
     out.sort(key=lambda x: x[0] != "core")
     return out
 
 
-BOUNDS = dict(history="2 runs over one cache directory (thorough: 3 runs for a seeded subset, within the time budget); run 1 fixed per instance (8 hook sets x {typeguard, beartype, None, no hook} x 7 import orders); every later run: solver-branched choice of hook set, checker, import order and an optional source edit of one module",
+BOUNDS = dict(run_environment="every run is additionally normal / with bytecode writing off (python -B) / with JAXTYPING_DISABLE=1 (solver-branched)", history="2 runs over one cache directory (thorough: 3 runs for a seeded subset, within the time budget); run 1 fixed per instance (8 hook sets x {typeguard, beartype, None, no hook} x 7 import orders); every later run: solver-branched choice of hook set, checker, import order and an optional source edit of one module",
               forest="wh (imports wp while being executed), wp, wq, wbad (imports wq, then raises ImportError), wsyn (does not compile)",
               tags="the three checker strings + None: pairwise distinct cache tags, distinct from CPython's")
 STUBS = ["a 'run' is simulated in-process: module table purged, hooks removed, importlib._bootstrap_external.cache_from_source reset to the pristine function (the state of a fresh interpreter); replays use real subprocesses"]
@@ -108,18 +108,23 @@ def begin_run(root):
     importlib.invalidate_caches()
 
 
-def expected(name, hooks, checker):
+def expected(name, hooks, checker, disabled=False):
     if checker == "nohook":
         return "plain"
     for h in hooks:
         if name == h or name.startswith(h + "."):
-            return "none" if checker is None else checker.split(".")[0]
+            # with checking disabled the module is still instrumented, the decorators just do nothing
+            return "none" if (checker is None or disabled) else checker.split(".")[0]
     return "plain"
 
 
-def do_run(V, root, versions, hooks, checker, order, tag, trace):
+def do_run(V, root, versions, hooks, checker, order, tag, trace, nowrite=False, disabled=False):
+    """One run.  nowrite: the run has bytecode writing switched off (python -B /
+    PYTHONDONTWRITEBYTECODE); disabled: the run has JAXTYPING_DISABLE=1."""
     import jaxtyping as jt
     begin_run(root)
+    sys.dont_write_bytecode = bool(nowrite)
+    jt.config.update("jaxtyping_disable", bool(disabled))
     mgr = None
     if checker != "nohook":
         mgr = jt.install_import_hook(list(hooks), checker)
@@ -138,14 +143,16 @@ def do_run(V, root, versions, hooks, checker, order, tag, trace):
             for nm in newly:
                 mod = sys.modules[nm]
                 got = classify(mod)
-                want = expected(nm, hooks, checker)
+                want = expected(nm, hooks, checker, disabled)
                 ver = getattr(mod, "VERSION", None)
                 V.check("right-code", got == want and ver == versions[nm], module=nm, got=got, expected=want,
                         version=ver, current_version=versions[nm], trace=trace + [f"{tag}: import {name}"])
-            trace.append(f"{tag}: hooks={hooks} checker={checker} import {name}" + (" (raised ImportError)" if failed else ""))
+            trace.append(f"{tag}: hooks={hooks} checker={checker} nowrite={nowrite} disabled={disabled} import {name}" + (" (raised ImportError)" if failed else ""))
     finally:
         if mgr is not None:
             mgr.uninstall()
+        sys.dont_write_bytecode = False
+        jt.config.update("jaxtyping_disable", False)
 
 
 def scenario(inst, V):
@@ -160,7 +167,8 @@ def scenario(inst, V):
     versions = {m: 1 for m in MODS}
     try:
         h, c, o = inst["run1"]
-        do_run(V, root, versions, HOOKSETS[h], CHECKERS[c], ORDERS[o], "run1", trace)
+        env1 = inst.get("env1", 0)   # 0 normal, 1 bytecode writing off, 2 JAXTYPING_DISABLE=1
+        do_run(V, root, versions, HOOKSETS[h], CHECKERS[c], ORDERS[o], "run1", trace, nowrite=env1 == 1, disabled=env1 == 2)
         for r in range(2, inst["nruns"] + 1):
             e = V.choose(f"edit{r}", 4)  # 0 = no edit; k = edit module k (wh / wp / wq)
             if e:
@@ -175,7 +183,8 @@ def scenario(inst, V):
                 raise core.PathAbort("redundant")
             o = V.choose(f"o{r}", len(ORDERS))
             V.reach("cache-hit")
-            do_run(V, root, versions, HOOKSETS[h], CHECKERS[c], ORDERS[o], f"run{r}", trace)
+            env = V.choose(f"env{r}", 3)
+            do_run(V, root, versions, HOOKSETS[h], CHECKERS[c], ORDERS[o], f"run{r}", trace, nowrite=env == 1, disabled=env == 2)
     finally:
         begin_run(root)
         sys.pycache_prefix, sys.dont_write_bytecode = old_prefix, old_dwb
@@ -246,10 +255,12 @@ def scenario_tags(inst, V):
 RUNNER = textwrap.dedent('''
     import sys, json, importlib
     sys.path.insert(0, {repo!r}); sys.path.insert(0, {verif!r}); sys.path.insert(0, {root!r})
-    sys.pycache_prefix = {root!r} + "/cache"; sys.dont_write_bytecode = False
+    sys.pycache_prefix = {root!r} + "/cache"
     import jaxtyping as jt
     from checks.c11 import classify
-    hooks, checker, order = json.loads({cfg!r})
+    hooks, checker, order, env = json.loads({cfg!r})
+    sys.dont_write_bytecode = (env == 1)
+    jt.config.update("jaxtyping_disable", env == 2)
     if checker != "nohook":
         jt.install_import_hook(hooks, checker)
     res = []
@@ -273,31 +284,33 @@ def replay(inst, label, vals, info):
         return _inproc_replay(inst, label, vals, info)
     root = fresh_forest()
     versions = {m: 1 for m in MODS}
-    runs = [("run1", None) + tuple(inst["run1"])]
+    runs = [("run1", None) + tuple(inst["run1"]) + (inst.get("env1", 0),)]
     for r in range(2, inst["nruns"] + 1):
         if f"h{r}" in vals or f"o{r}" in vals or f"c{r}" in vals or f"edit{r}" in vals:
-            runs.append((f"run{r}", vals.get(f"edit{r}", 0), vals.get(f"h{r}", 0), vals.get(f"c{r}", 0), vals.get(f"o{r}", 0)))
+            runs.append((f"run{r}", vals.get(f"edit{r}", 0), vals.get(f"h{r}", 0), vals.get(f"c{r}", 0), vals.get(f"o{r}", 0),
+                         vals.get(f"env{r}", 0)))
     text = []
     bad = False
     try:
-        for tag, e, h, c, o in runs:
+        for tag, e, h, c, o, envk in runs:
             if e:
                 m = MODS[e - 1]
                 versions[m] += 1
                 write_mod(root, m, versions[m])
                 text.append(f"edit {m} -> VERSION {versions[m]}")
-            cfg = json.dumps([HOOKSETS[h], CHECKERS[c], ORDERS[o]])
+            cfg = json.dumps([HOOKSETS[h], CHECKERS[c], ORDERS[o], envk])
             env = dict(os.environ)
             env.pop("PYTHONDONTWRITEBYTECODE", None)
+            env.pop("JAXTYPING_DISABLE", None)
             from checks import common
             p = subprocess.run([sys.executable, "-c", RUNNER.format(repo=common.REPO, verif=common.VERIF, root=root, cfg=cfg, mods=MODS)],
                                capture_output=True, text=True, env=env, timeout=300)
             line = [l for l in p.stdout.splitlines() if l.startswith("RESULT")]
             res = json.loads(line[-1][6:]) if line else [["<crash>", p.stderr[-300:], None]]
             for nm, got, ver in res:
-                want = expected(nm, HOOKSETS[h], CHECKERS[c])
+                want = expected(nm, HOOKSETS[h], CHECKERS[c], envk == 2)
                 ok = got == want and ver == versions.get(nm)
-                text.append(f"{tag} (separate process) hooks={HOOKSETS[h]} checker={CHECKERS[c]} order={ORDERS[o]}: "
+                text.append(f"{tag} (separate process, env={['normal', 'no bytecode writing', 'JAXTYPING_DISABLE=1'][envk]}) hooks={HOOKSETS[h]} checker={CHECKERS[c]} order={ORDERS[o]}: "
                             f"{nm}: instrumentation={got} (expected {want}) VERSION={ver} (current {versions.get(nm)})" + ("" if ok else "   <-- WRONG"))
                 bad = bad or not ok
     finally:
